@@ -89,6 +89,29 @@ type FakeNet struct {
 	probeB    map[string]Behaviour // explicit probe behaviour by host (overrides behave for probes)
 	probeLog  []ProbeRec
 	parkParts map[string][2]int // by host: body parts delivered before / after the park of ParkHead, ParkMidBody
+	failCode  map[string]int    // by host: the status a Status5xx / Interim5xx answer carries (default 500)
+	interim   map[string]int    // by host: the status of the interim response of Interim5xx / InterimGood (default 103)
+}
+
+// SetFailStatus fixes which 5xx status host answers with when its behaviour is Status5xx or Interim5xx
+// (500, 501, 502, 503, 504, 505, 507, 599, ...: every one of them is a failed response).
+func (f *FakeNet) SetFailStatus(host string, code int) {
+	f.mu.Lock()
+	if f.failCode == nil {
+		f.failCode = map[string]int{}
+	}
+	f.failCode[host] = code
+	f.mu.Unlock()
+}
+
+// SetInterimStatus fixes the status (100, 102, 103) of the interim response host sends with Interim5xx / InterimGood.
+func (f *FakeNet) SetInterimStatus(host string, code int) {
+	f.mu.Lock()
+	if f.interim == nil {
+		f.interim = map[string]int{}
+	}
+	f.interim[host] = code
+	f.mu.Unlock()
 }
 
 // SetParkParts fixes, for ParkMidBody (and the tail of ParkHead) responses of host, how many body parts
@@ -409,14 +432,23 @@ func (f *FakeNet) roundTrip(req *http.Request, isProbe bool) (*http.Response, er
 		f.probeLog = append(f.probeLog, ProbeRec{Host: host, Start: start, End: time.Now(), OK: b == Good || b == Park || b == InterimGood})
 		f.mu.Unlock()
 	}
+	f.mu.Lock()
+	fail, ic := f.failCode[host], f.interim[host]
+	f.mu.Unlock()
+	if fail == 0 {
+		fail = 500
+	}
+	if ic == 0 {
+		ic = 103
+	}
 	if b == Interim5xx || b == InterimGood {
 		// what http.Transport does when the backend sends an interim response: the reverse proxy
 		// listens through httptrace and forwards it to the client before the final response
 		if tr := httptrace.ContextClientTrace(req.Context()); tr != nil && tr.Got1xxResponse != nil {
-			_ = tr.Got1xxResponse(103, textproto.MIMEHeader{"Link": {"</s.css>; rel=preload"}})
+			_ = tr.Got1xxResponse(ic, textproto.MIMEHeader{"Link": {"</s.css>; rel=preload"}})
 		}
 		if b == Interim5xx {
-			return mk(500, "err:"+host), nil
+			return mk(fail, "err:"+host), nil
 		}
 		return mk(200, "ok:"+host), nil
 	}
@@ -426,7 +458,7 @@ func (f *FakeNet) roundTrip(req *http.Request, isProbe bool) (*http.Response, er
 	case Status4xx:
 		return mk(404, "nf:"+host), nil
 	case Status5xx:
-		return mk(500, "err:"+host), nil
+		return mk(fail, "err:"+host), nil
 	case AbortBody:
 		r := mk(200, "")
 		r.ContentLength = 100
